@@ -3,7 +3,7 @@
 //! Bounded exhaustive enumeration on the real code. A *registration set* is a set of
 //! (party, stake) pairs over a pool of 5 certified parties (real BLS keys with proof of
 //! possession, operational certificate and KES signature; two of the keys share the longest
-//! common byte prefix found among 4096 deterministic candidates). For every set of the family
+//! common prefix found by a deterministic birthday search over 2^18 (thorough 2^21) candidates). For every set of the family
 //! every permutation of the registration order is pushed through four computation routes
 //!
 //! * `stm`        mithril-stm directly: `KeyRegistration::register` … `close_registration` →
@@ -53,7 +53,11 @@ type D = MithrilMembershipDigest;
 type Member = (usize, u64);
 
 const POOL: usize = 5;
-const CANDIDATES: usize = 4096;
+/// size of the birthday search for the equal-prefix key pair (doubled until MIN_PREFIX_BITS is reached)
+const CANDIDATES_QUICK: usize = 1 << 18;
+const CANDIDATES_THOROUGH: usize = 1 << 21;
+const MIN_PREFIX_BITS: usize = 32;
+const SEARCH_CHUNK: usize = 2048;
 /// a stake no f64 can carry (2^53 + 1): a lossy numeric route changes it
 const BIG: u64 = (1u64 << 53) + 1;
 const STAKES: [u64; 5] = [1, 2, 3, 10, BIG];
@@ -88,6 +92,7 @@ struct World {
     msg_bytes: Vec<u8>,
     cert: MithrilCertificate,
     common_prefix_bits: usize,
+    candidates: usize,
 }
 
 fn candidate_rng(j: usize) -> ChaCha20Rng {
@@ -110,7 +115,45 @@ fn common_prefix_bits(a: &[u8], b: &[u8]) -> usize {
     n
 }
 
-fn build_world(threads: usize) -> World {
+/// First 16 bytes of the compressed verification key candidate `j` gets: the secret key is made from
+/// the first 32 bytes of the candidate's ChaCha stream exactly as `BlsSigningKey::generate` does
+/// (sk -> vk only, no proof of possession). The chosen candidates are re-derived through the real
+/// `Initializer::new` afterwards and must give the same bytes.
+fn candidate_prefix(j: usize) -> u128 {
+    use rand_core::RngCore;
+    let mut ikm = [0u8; 32];
+    candidate_rng(j).fill_bytes(&mut ikm);
+    let sk = blst::min_sig::SecretKey::key_gen(&ikm, &[]).expect("32 bytes of key material");
+    let vk = sk.sk_to_pk().to_bytes();
+    u128::from_be_bytes(vk[..16].try_into().unwrap())
+}
+
+/// Deterministic parallel birthday search: the two candidates whose verification-key bytes (in the
+/// order `compare_verification_keys` reads them) share the longest prefix. Returns (bits, a, b, size).
+fn search_equal_prefix_pair(threads: usize, start: usize) -> (usize, usize, usize, usize) {
+    let mut keys: Vec<(u128, u32)> = vec![];
+    let mut size = start;
+    loop {
+        let chunks: Vec<(usize, usize)> = (keys.len()..size).step_by(SEARCH_CHUNK).map(|a| (a, (a + SEARCH_CHUNK).min(size))).collect();
+        for part in par_map(&chunks, threads, |_, (a, b)| (*a..*b).map(|j| (candidate_prefix(j), j as u32)).collect::<Vec<_>>()) {
+            keys.extend(part);
+        }
+        keys.sort_unstable();
+        let mut best = (0usize, 0usize, 1usize);
+        for w in keys.windows(2) {
+            let l = (w[0].0 ^ w[1].0).leading_zeros() as usize;
+            if l > best.0 {
+                best = (l, w[0].1 as usize, w[1].1 as usize);
+            }
+        }
+        if best.0 >= MIN_PREFIX_BITS || size >= 1 << 24 {
+            return (best.0, best.1.min(best.2), best.1.max(best.2), size);
+        }
+        size *= 2;
+    }
+}
+
+fn build_world(threads: usize, candidates: usize) -> World {
     // phi_f = 1: every party wins every lottery, so every member's signature exists and its slot can be read
     let pp = ProtocolParameters::new(1, 4, 1.0);
     let params: Parameters = pp.clone().into();
@@ -119,26 +162,11 @@ fn build_world(threads: usize) -> World {
     let fx = fixture.signers_fixture();
     assert_eq!(fx.len(), POOL);
 
-    // key material: 4096 deterministic candidates; the two with the longest common prefix of the
-    // compressed verification key join the pool together with the first three others
-    let cands: Vec<usize> = (0..CANDIDATES).collect();
-    let vks: Vec<[u8; 96]> = par_map(&cands, threads, |_, j| {
-        Initializer::new(params, 1, &mut candidate_rng(*j))
-            .get_verification_key_proof_of_possession_for_concatenation()
-            .vk
-            .to_bytes()
-    });
-    let mut sorted = cands.clone();
-    sorted.sort_by_key(|j| vks[*j]);
-    let mut best = (0usize, sorted[0], sorted[1]);
-    for w in sorted.windows(2) {
-        let l = common_prefix_bits(&vks[w[0]], &vks[w[1]]);
-        if l > best.0 {
-            best = (l, w[0], w[1]);
-        }
-    }
-    let mut chosen = vec![best.1.min(best.2), best.1.max(best.2)];
-    for j in 0..CANDIDATES {
+    // key material: the two candidates with the longest common prefix of the compressed verification
+    // key join the pool together with the first three others
+    let (_, a, b, candidates) = search_equal_prefix_pair(threads, candidates);
+    let mut chosen = vec![a, b];
+    for j in 0..candidates {
         if chosen.len() < POOL && !chosen.contains(&j) {
             chosen.push(j);
         }
@@ -160,7 +188,11 @@ fn build_world(threads: usize) -> World {
         let stm_init = Initializer::new(params, 1, &mut candidate_rng(cand));
         let vk: ProtocolSignerVerificationKeyForConcatenation = inits[&1].verification_key_for_concatenation().into();
         let vk_bytes = vk.vk.to_bytes();
-        assert_eq!(vk_bytes, vks[cand], "key generation is a function of the seed");
+        assert_eq!(
+            u128::from_be_bytes(vk_bytes[..16].try_into().unwrap()),
+            candidate_prefix(cand),
+            "the search derives the key the real Initializer::new derives from the same seed"
+        );
         assert_eq!(vk_bytes, stm_init.get_verification_key_proof_of_possession_for_concatenation().vk.to_bytes());
         for s in STAKES {
             assert_eq!(inits[&s].verification_key_for_concatenation().vk.to_bytes(), vk_bytes);
@@ -182,6 +214,7 @@ fn build_world(threads: usize) -> World {
     let msg_bytes = msg.to_message().into_bytes();
     World {
         common_prefix_bits: common_prefix_bits(&parties[0].vk_bytes, &parties[1].vk_bytes),
+        candidates,
         parties,
         pp,
         params,
@@ -883,7 +916,7 @@ pub fn run(ctx: &Ctx) -> ! {
     let mut rep = Report::new(
         "exploration",
         "every registration set of the family - each subset of 1..4 parties out of a pool of 5 certified parties (two of whose \
-         keys share the longest common prefix found among 4096 candidates), with every arrangement of stakes drawn from the \
+         keys share the longest common prefix found among 2^18, thorough 2^21, candidates: >= 32 bits), with every arrangement of stakes drawn from the \
          multiset {1,1,2,10} (for N<=2 also from {1,1,2,2^53+1}; thorough: all of {1,2,10}^N and {1,1,2,2^53+1} for every N) - is \
          registered in EVERY order (N=4: 24 permutations) on four routes - mithril-stm directly, the signer node's and the \
          aggregator's use of SignerBuilder, the client's compute_mithril_stake_distribution_message on the parsed JSON \
@@ -898,18 +931,26 @@ pub fn run(ctx: &Ctx) -> ! {
     // the certified fixture writes operational certificates and KES keys under the temp dir
     let scratch = ctx.scratch();
     unsafe { std::env::set_var("TMPDIR", &scratch) };
-    let w = build_world(threads);
+    let w = build_world(threads, ctx.tier.pick(CANDIDATES_QUICK, CANDIDATES_THOROUGH));
     eprintln!("[C06] world built at {:.1}s", ctx.elapsed_s());
     rep.extra(
         "pool",
         json!({
-            "key_candidates": CANDIDATES,
+            "key_candidates": w.candidates,
             "parties": w.parties.iter().enumerate().map(|(i, p)| json!({"party": i, "candidate": p.candidate, "party_id": p.party_id, "verification_key_prefix": hex::encode(&p.vk_bytes[..8])})).collect::<Vec<_>>(),
             "common_prefix_bits_of_parties_0_and_1": w.common_prefix_bits,
             "stake_values": STAKES.iter().map(|s| s.to_string()).collect::<Vec<_>>(),
             "protocol_parameters": {"k": w.pp.k, "m": w.pp.m, "phi_f": w.pp.phi_f},
         }),
     );
+    rep.extra("equal_prefix_bits", json!(w.common_prefix_bits));
+    rep.assume(&format!(
+        "the keys of parties 0 and 1 agree on their first {} bits (longest common prefix among {} constant-seeded candidates): a key comparison that is truncated beyond that many bits is outside what this check can see",
+        w.common_prefix_bits, w.candidates
+    ));
+    if w.common_prefix_bits < MIN_PREFIX_BITS {
+        rep.machinery_error(format!("equal-prefix key pair shares only {} bits (< {MIN_PREFIX_BITS})", w.common_prefix_bits));
+    }
     rep.assume("mithril-aggregator is not linked: its route is mirrored by the calls epoch_service.rs::precompute_epoch_data makes (SignerBuilder::new(&signers, &protocol_parameters)?.build_multi_signer() and compute_aggregate_verification_key() on the result); the signer node's route mirrors single_signer.rs / signable_seed_builder.rs (SignerBuilder::new, compute_aggregate_verification_key, restore_signer_from_initializer)");
     rep.assume("phi_f = 1 so that every member wins a lottery and its slot can be read from a real signature; the key does not depend on the protocol parameters in this build (no future_snark)");
     rep.assume("the client route yields a key only (a client has no slots); slots are compared between the stm and signer routes, and the aggregator's view of a slot through MultiSigner::verify_single_signature of signatures made under another registration order");
